@@ -186,6 +186,23 @@ def run(ctx):
         pool.run_all(requests, on_result, chunk=1)
     finally:
         pool.close()
+    # ---- statements after a background flush has failed (real timers; the data file of the selected database takes no
+    # writes any more): whatever they answer, they answer
+    sbin = vlib.build_harness(ctx, "session")
+    spool = vlib.WorkerPool(ctx, sbin)
+    spool.request_timeout = 120
+    fault = []
+    try:
+        spool.run_all([dict(steps=[], fault=True)], lambda q, r: fault.append(r), chunk=1)
+    finally:
+        spool.close()
+    if not fault or fault[0].get("kind") == "infra" or fault[0].get("fatal"):
+        raise vlib.Undecided("failed-flush scenario: %s" % (fault and (fault[0].get("notes") or fault[0].get("viol"))))
+    if not fault[0]["ok"]:
+        vlib.report_violation(ctx, dict(kind="session-fault", detail=fault[0].get("viol"),
+                                        how="real flush timers; the data file's descriptor is closed under the store (every periodic flush fails); then SELECT, INSERT, USE b, USE a, USE no_such_db, Session.Close under an 8 s watchdog"),
+                              signature="failed-flush:" + (fault[0].get("viol") or [""])[0][:100])
+    stats["failed_flush_scenarios"] = 1
     for need in ("nodb:error", "badu:ok", "badu:error", "empty:ok", "nulls:ok", "nulls:error"):
         if not by_state.get(need):
             raise vlib.Undecided("vacuous: no statement with outcome %s" % need)
